@@ -301,7 +301,7 @@ open Ymq.Gen.Primality in
 /-- `factor(n, alg, prefs)` -/
 def factor (o : Oracle σ) (fuel : Nat) (n : Nat) (alg : Algo) (os : σ) : Out :=
   if n = 0 then .ok [0]
-  else if bits n > 510 then .failure      -- refused up front (64 * MINT_WORDS - 2 bits)
+  else if bits n > 500 then .failure      -- refused up front (64 * MINT_WORDS - 12 bits: the documented limit)
   else
     let (nred, fs) := trialDivideBy 1100 smallPrimes n []
     match factorImpl o fuel nred alg { os := os, factors := fs, pm1done := false, giveups := [] } with
